@@ -1,7 +1,7 @@
 #!/bin/bash
 # silence sweep: tools/sweep.sh <tier> "<ids>" "<seeds>"   -> one line per run on stdout
 TIER=$1; IDS=$2; SEEDS=$3
-cd /verif
+cd "$(dirname "$0")/.."
 for s in $SEEDS; do for c in $IDS; do
   out=$(VERIF_SEED=$s ./check $c $TIER 2>&1); rc=$?
   echo "$c seed=$s rc=$rc $(echo "$out" | grep -E "^C[0-9]+ (quick|thorough)" | tail -1 | cut -d: -f2-) $(echo "$out" | grep -c '^VIOLATION') viol $(echo "$out" | grep -c 'KNOWN-FINDING') known $(echo "$out" | grep -m1 BROKEN)"
